@@ -132,15 +132,21 @@ class SerializerBase(object):
         if type(obj) in (set, dict, tuple, list):
             # we use a ValueError to mirror the exception type returned by serpent and other serializers
             raise ValueError("can't serialize type " + str(obj.__class__) + " into a dict")
-        if hasattr(obj, "_pyroDaemon"):
-            obj._pyroDaemon = None
+        def without_daemon(attrs):
+            # The daemon that a Pyro object is registered in can't travel with it: it is blanked in the serialized form.
+            # (in the copy, never on the object itself: that one is still registered and has to keep its daemon)
+            if attrs.get("_pyroDaemon") is not None:
+                attrs = dict(attrs)
+                attrs["_pyroDaemon"] = None
+            return attrs
+
         if isinstance(obj, BaseException):
             # special case for exceptions
             return {
                 "__class__": obj.__class__.__module__ + "." + obj.__class__.__name__,
                 "__exception__": True,
                 "args": obj.args,
-                "attributes": vars(obj)  # add custom exception attributes
+                "attributes": without_daemon(vars(obj))  # add custom exception attributes
             }
         # note: python 3.11+ object itself now has __getstate__
         has_own_getstate = (
@@ -150,11 +156,11 @@ class SerializerBase(object):
         if has_own_getstate:
             value = obj.__getstate__()
             if isinstance(value, dict):
-                return value
+                return without_daemon(value)
         try:
             value = dict(vars(obj))  # make sure we can serialize anything that resembles a dict
             value["__class__"] = obj.__class__.__module__ + "." + obj.__class__.__name__
-            return value
+            return without_daemon(value)
         except TypeError:
             if hasattr(obj, "__slots__"):
                 # use the __slots__ instead of the vars dict
@@ -162,7 +168,7 @@ class SerializerBase(object):
                 for slot in obj.__slots__:
                     value[slot] = getattr(obj, slot)
                 value["__class__"] = obj.__class__.__module__ + "." + obj.__class__.__name__
-                return value
+                return without_daemon(value)
             else:
                 raise errors.SerializeError("don't know how to serialize class " + str(obj.__class__) +
                                             " using serializer " + str(cls.__name__) +
